@@ -46,7 +46,7 @@ def gen_setpwm(r, tier):
     n = 150 if tier == "quick" else 2000
     for _ in range(n):
         pm = streams.gen_pwm_map(r)
-        kind = r.pick(["hwmon", "file"])
+        kind = streams.pick_world_kind(r, base=("hwmon", "file"))
         ops.append("#case setpwm")
         ops.append(f"w.new kind={kind} ns=0 win=10 maxp=255 map={streams.int_map_tok(pm)} loop=direct m=- resp=id pwm={r.range(0,255)} rpm=900 origmode=2 origpwm=0")
         ts = [r.range(-50, 305) for _ in range(20)] + [r.pick(sorted(pm)) for _ in range(5)]
@@ -71,9 +71,10 @@ def closest_contract(op, go_line, lean_line):
 class C12(Prop):
     id = "C12"
     lean_modules = ["Fan2go.Props.C12"]
+    fact_modules = ["Fan2go.Props.Trans"]
     rule = ("closest: exhaustive key sets over a small universe x requests -50..305 + random full-size key sets; "
             "distinct: PWM-map shapes (identity, sparse, quantiser, plateau, non-monotone, constant, single); "
-            "setpwm: real controller.setPwm on a virtual device. non-trivial = distinct (|keys|>=2, request strictly "
+            "setpwm: real controller.setPwm on a virtual device (hwmon / file fans) or on real scripts (cmd fans). non-trivial = distinct (|keys|>=2, request strictly "
             "between two keys or outside the range, tie / non-tie) classes")
     assumptions = ["PWM map outputs are in 0..255 (an output of -1 would defeat the run detection: theorem C12_sentinel)",
                    "Go sort.Ints / map iteration are not modelled: the model takes the map sorted by key"]
